@@ -925,7 +925,8 @@ impl Vm {
       },
       ImportResult::Compiled(fun) => {
         self.update_ip(-3);
-        self.fiber.sleep();
+        // wait until the module's fiber completes
+        self.fiber.block();
 
         let import_fiber = self.create_fiber(fun, Some(self.fiber));
 
@@ -1007,7 +1008,8 @@ impl Vm {
       },
       ImportResult::Compiled(fun) => {
         self.update_ip(-5);
-        self.fiber.sleep();
+        // wait until the module's fiber completes
+        self.fiber.block();
 
         let import_fiber = self.create_fiber(fun, Some(self.fiber));
 
